@@ -713,8 +713,8 @@ def r8_piecewise_encoding(rep, src):
 def r7b_line_codec_handover(rep, src):
     """the same clause by interpretation: the constructor of the signed-document classes interpreted (sa.heap) on a list of TEXT lines and
     on a list of BYTES lines under the ways of passing the arguments, with the line encoder, the armor splitter and the wrapped constructor
-    as observers: text lines are encoded with one codec and the wrapped constructor is told to decode with that codec (unless the
-    caller fixed the encoding by position, which is left as it is); bytes lines leave the caller's encoding alone."""
+    as observers: text lines are encoded with one codec and the wrapped constructor is told to decode with that codec, however the
+    caller passed its own encoding -- which the paragraph keeps as its encoding afterwards; bytes lines leave the caller's encoding alone."""
     from .. import heap as H
     mod = src.mod('deb822')
     f = mod.funcs.get('_gpg_multivalued.__init__')
@@ -732,11 +732,16 @@ def r7b_line_codec_handover(rep, src):
                         ('bytes lines without line ends, the first one empty', [b'', b'A: b'])):
         for label, args, kwargs in (('no encoding given', [lines], {}), ('encoding by keyword', [lines], {'encoding': 'latin-1'}),
                                     ('lines and encoding by keyword', [], {'sequence': lines, 'encoding': 'latin-1'}),
-                                    ('encoding by keyword, filter by position', [lines, ('F',)], {'encoding': 'latin-1'})):
+                                    ('encoding by keyword, filter by position', [lines, ('F',)], {'encoding': 'latin-1'}),
+                                    ('encoding by position', [lines, None, None, 'latin-1'], {}),
+                                    ('encoding and parser setting by position', [lines, None, None, 'latin-1', ('S',)], {})):
             got = {'codecs': []}
 
             def base_hook(it, a, k, got=got):
                 got['base'] = (list(a), dict(k))
+                # (what the paragraph constructor does with the encoding it is given: it becomes the paragraph's own)
+                a_ = list(a)[1:]
+                it.h.objs[a[0].name]['encoding'] = a_[3] if len(a_) > 3 else k.get('encoding', 'utf-8')
 
             def split_hook(it, a, k, got=got):
                 for x_ in a[1:2]:
@@ -768,7 +773,15 @@ def r7b_line_codec_handover(rep, src):
             a, k = got['base']
             a = a[1:]
             eff = {p: (a[i] if i < len(a) else k.get(p)) for i, p in enumerate(names[:5])}
-            given = kwargs.get('encoding')
+            given = kwargs.get('encoding', args[3] if len(args) > 3 else None)
+            if len(args) > 4 and eff['strict'] != args[4]:
+                rep.fail('C02.R7', f.site, what, 'the parser setting passed by position arrives as %r' % (eff['strict'],), where=f.where)
+                continue
+            own = heap.objs[me.name].get('encoding')
+            if kind.startswith('text lines') and 'encoding' in heap.objs[me.name] and own != (given or 'utf-8'):
+                rep.fail('C02.R7', f.site, what, 'after construction from text lines the paragraph says its encoding is %r; the caller said %r: bytes(paragraph) and dump() into a binary '
+                         'file write another encoding than for the same document read from bytes' % (own, given or 'utf-8 (the default)'), where=f.where)
+                continue
             if kind.startswith('text lines'):
                 codecs = set(got['codecs'])
                 if len(codecs) != 1 or not isinstance(next(iter(codecs)), str):
@@ -784,8 +797,8 @@ def r7b_line_codec_handover(rep, src):
                     rep.fail('C02.R7', f.site, what, 'bytes lines are decoded with %r although the caller said %r' % (eff['encoding'], given), where=f.where)
                 else:
                     rep.ok('C02.R7', f.site, what, 'the caller\'s %r' % (given,))
-    if n < 12:
-        raise AnalysisError('%s: fewer than twelve calling conventions interpreted' % f.site)
+    if n < 20:
+        raise AnalysisError('%s: fewer than twenty calling conventions interpreted' % f.site)
 
 
 def r9_paragraphs_share_no_container(rep, src):
